@@ -5,7 +5,7 @@
 V=$(cd "$(dirname "$0")/.." && pwd)
 SEED=${1:-20260930}
 mkdir -p /tmp/harmlesspar; : > /tmp/harmlesspar/result.tsv
-for p in $V/harmless/harmless-*.diff; do
+for p in $V/harmless/${HARMLESS_GLOB:-harmless-*}.diff; do
   k=$(basename $p .diff)
   (
     W=/tmp/harmlesspar/v_$k; R=/tmp/harmlesspar/r_$k
